@@ -179,9 +179,12 @@ def generate(rng, config):
 # snapshots
 
 def snap_formula(F):
+    try:
+        labels = list(F.all_variable_labels())
+    except Exception as e:          # noqa: BLE001 - a broken name table is
+        labels = ["<all_variable_labels raises %s>" % type(e).__name__]
     return (type(F).__name__, F.number_of_variables(),
-            [copy.deepcopy(c) for c in F],
-            list(F.all_variable_labels()),
+            [copy.deepcopy(c) for c in F], labels,
             [(k, copy.deepcopy(v)) for k, v in F.header.items()])
 
 
